@@ -151,8 +151,8 @@ def run(ck: Checker):
     if not (sup and len(sup[0].args) == 2 and is_name(sup[0].args[1], p1)):
         probs.append('EnsembleError.__init__ does not keep its `results` argument as args[1]')
     r = [n for n in walk_shallow_func(ered.node) if isinstance(n, ast.Return)]
-    if not (r and isinstance(r[0].value, ast.Tuple) and norm_text(r[0].value.elts[0]) in ('type(self)', 'self.__class__', 'EnsembleError') and norm_text(r[0].value.elts[1]) == '(self.args[1],)'):
-        probs.append(f'EnsembleError.__reduce__ returns `{norm_text(r[0].value) if r else None}`, not (type(self), (self.args[1],))')
+    if not (r and isinstance(r[0].value, ast.Tuple) and norm_text(r[0].value.elts[0]) in ('type(self)', 'self.__class__') and norm_text(r[0].value.elts[1]) == '(self.args[1],)'):
+        probs.append(f'EnsembleError.__reduce__ returns `{norm_text(r[0].value) if r else None}`, not (type(self), (self.args[1],)): a subclass of EnsembleError would come out of the first hop as another class')
     probs += nested_rewrap_problems(ck)[1]
     ck.ob('C15-5', ered, r[0] if r else ered.node, not probs, '; '.join(probs) if probs else 'EnsembleError round-trips through its results dict; nested BaseException members are re-wrapped in RemoteException')
 
@@ -184,6 +184,31 @@ def nested_rewrap_problems(ck: Checker):
             if not implied_by(guard[0].test, {f'isinstance({pexc}, EnsembleError)'}):
                 probs.append(f'the re-wrapping runs only when `{norm_text(guard[0].test)}`: an EnsembleError for which the extra condition fails crosses the next process boundary with bare member exceptions (their remote tracebacks are lost, a further hop raises ValueError)')
             member = norm_text(wrap[0].targets[0])
-            if not implied_by(inner[0].test, {f'isinstance({member}, BaseException)'}):
+            hyp = {f'isinstance({member}, BaseException)'}
+            # `for i, v in enumerate(z)`: v is z[i]
+            for lp in [n for n in ast.walk(guard[0]) if isinstance(n, ast.For) and any(x is wrap[0] for x in ast.walk(n))]:
+                if isinstance(lp.iter, ast.Call) and dotted(lp.iter.func) == 'enumerate' and isinstance(lp.target, ast.Tuple) and len(lp.target.elts) == 2 and all(isinstance(e_, ast.Name) for e_ in lp.target.elts) and lp.iter.args:
+                    if f'{norm_text(lp.iter.args[0])}[{lp.target.elts[0].id}]' == member and not any(isinstance(x, ast.Name) and x.id == lp.target.elts[1].id and isinstance(x.ctx, ast.Store) for b_ in lp.body for x in ast.walk(b_)):
+                        hyp.add(f'isinstance({lp.target.elts[1].id}, BaseException)')
+            if not any(implied_by(inner[0].test, {h}) for h in hyp):
                 probs.append(f'a member is re-wrapped only when `{norm_text(inner[0].test)}`: a member exception for which the extra condition fails (e.g. one that came out of a pickle and has no live traceback) stays bare and loses its remote traceback at the next hop')
+            # ...and the loop visits every slot of the member list: `for i in range(len(z))`, `for i, v in enumerate(z)`,
+            # `for i in range(len(exc.args[1]['y']))` -- not a count that is not the length (`n` counts answers received)
+            loops = [n for n in ast.walk(guard[0]) if isinstance(n, ast.For) and any(x is wrap[0] for x in ast.walk(n))]
+            tgt = wrap[0].targets[0]
+            lst = tgt.value  # z in z[i]
+            lst_txt = norm_text(lst)
+            aliases = {lst_txt}
+            for a_ in ast.walk(guard[0]):
+                if isinstance(a_, ast.Assign) and len(a_.targets) == 1 and norm_text(a_.targets[0]) == lst_txt:
+                    aliases.add(norm_text(a_.value))
+            ok_loop = False
+            if loops:
+                it = loops[0].iter
+                if isinstance(it, ast.Call) and dotted(it.func) == 'range' and len(it.args) == 1 and isinstance(it.args[0], ast.Call) and dotted(it.args[0].func) == 'len' and it.args[0].args and norm_text(it.args[0].args[0]) in aliases:
+                    ok_loop = True
+                elif isinstance(it, ast.Call) and dotted(it.func) == 'enumerate' and it.args and norm_text(it.args[0]) in aliases:
+                    ok_loop = True
+            if not ok_loop:
+                probs.append(f'the re-wrapping loop runs over `{norm_text(loops[0].iter) if loops else None}`, not over every slot of the member list `{lst_txt}`: a member exception outside that range stays bare and loses its remote traceback at the next hop')
     return init, probs
